@@ -63,6 +63,7 @@ type TOp struct {
 
 type Input struct {
 	Script *Script  `json:"script,omitempty"`
+	Burst  *Burst   `json:"burst,omitempty"`
 	Table  []TOp    `json:"table,omitempty"`
 	Tags   []string `json:"tags,omitempty"`
 }
@@ -881,6 +882,7 @@ type Work struct {
 type Result struct {
 	Index     int      `json:"index"`
 	Observed  []Obs    `json:"observed,omitempty"`
+	BObserved []BObs   `json:"bobserved,omitempty"`
 	TableOuts []string `json:"table_outs,omitempty"`
 	TableRuns []string `json:"table_runs,omitempty"`
 	TableNT   bool     `json:"table_nt,omitempty"`
@@ -910,7 +912,33 @@ func child(t *testing.T) {
 	for i := EnvInt("VERIF_C02_FROM", 0); i < len(work); i++ {
 		w := work[i]
 		res := Result{Index: i}
-		if w.In.Script == nil {
+		if w.In.Burst != nil {
+			distinct := map[string]*BObs{}
+			var order []string
+			for k := 0; k < w.Reps; k++ {
+				o := runBurstOnce(t, *w.In.Burst)
+				res.Bubbles++
+				if o.Hung {
+					res.Hung++
+					totalHung++
+				}
+				key := bobsKey(o)
+				if e, ok := distinct[key]; ok {
+					e.Count++
+				} else {
+					o.Count = 1
+					distinct[key] = &o
+					order = append(order, key)
+				}
+				if res.Hung >= 3 || (res.Hung >= 1 && totalHung > 150) {
+					break
+				}
+			}
+			sort.Strings(order)
+			for _, key := range order {
+				res.BObserved = append(res.BObserved, *distinct[key])
+			}
+		} else if w.In.Script == nil {
 			res.TableOuts, res.TableRuns, res.TableNT = runTable(t, w.In.Table)
 			res.Bubbles = 1
 		} else {
@@ -956,7 +984,8 @@ func TestC02(t *testing.T) {
 	}
 	col := NewCollector("C02", "Check.C02",
 		"one case = one timed script (one job, calls at given fake instants; repeated when events tie, every distinct outcome reported) "+
-			"or one sequential history over several names; non-trivial = a timed script in which the job's time or a run/cancel/ctx call "+
+			"or one sequential history over several names, or one burst (goroutines released together operating on one name, repeated; "+
+			"non-trivial: at least two lanes and a ScheduleJob); non-trivial = a timed script in which the job's time or a run/cancel/ctx call "+
 			"falls inside the script, or a history with a refused duplicate, a successful RunJob and a re-used name; distinct by input text")
 	col.ShardSize = 60
 	col.Preamble = "From Coq Require Import String."
@@ -970,6 +999,8 @@ func TestC02(t *testing.T) {
 		tieReps *= 4
 	}
 	tieReps = EnvInt("VERIF_C02_REPS", tieReps)
+	burstReps := 6 * tieReps // 300 quick, 1200 thorough; the windows are a few hundred nanoseconds wide
+	burstReps = EnvInt("VERIF_C02_BURST_REPS", burstReps)
 
 	var ins []Input
 	for _, in := range LoadInputs[Input]("C02") {
@@ -990,9 +1021,29 @@ func TestC02(t *testing.T) {
 			ins = append(ins, Input{Table: genTable(r), Tags: []string{"table"}})
 		}
 	}
+	// bursts: on top of the scripts, from their own stream (the scripts of a seed stay what they were)
+	nb := n / 10
+	if n > 0 && nb < 8 {
+		nb = 8
+	}
+	brng := rng.Fork()
+	for i := 0; i < nb; i++ {
+		b, tags := genBurst(brng.Fork())
+		ins = append(ins, Input{Burst: &b, Tags: tags})
+	}
 	// decide repetitions and tags
 	work := make([]Work, 0, len(ins))
 	for _, in := range ins {
+		if in.Burst != nil {
+			b := normaliseBurst(*in.Burst)
+			in.Burst = &b
+			reps := b.Reps
+			if reps <= 0 {
+				reps = burstReps
+			}
+			work = append(work, Work{In: in, Reps: reps, Tags: append(append([]string(nil), in.Tags...), "burst")})
+			continue
+		}
 		if in.Script == nil {
 			work = append(work, Work{In: in, Reps: 1, Tags: in.Tags})
 			continue
@@ -1090,6 +1141,38 @@ func TestC02(t *testing.T) {
 		bubbles += res.Bubbles
 		hungObs += res.Hung
 		in := w.In
+		if in.Burst != nil {
+			b := *in.Burst
+			observed := res.BObserved
+			if res.Crashed != "" {
+				o := emptyBObs(b)
+				o.Panic, o.Hung, o.Count = true, true, 1
+				observed = []BObs{o}
+				col.Note(fmt.Sprintf("case %d: the process died (%s)", id, res.Crashed))
+				col.Count("process-died")
+			}
+			terms := make([]string, 0, len(observed))
+			for _, o := range observed {
+				terms = append(terms, bobsTerm(o))
+			}
+			col.Count("burst")
+			col.Count(fmt.Sprintf("burst-lanes:%d", len(b.Lanes)))
+			col.Count(fmt.Sprintf("burst-distinct-outcomes:%d", len(observed)))
+			col.Count("burst-follow:" + b.Follow)
+			scheds := 0
+			for _, l := range b.Lanes {
+				for _, op := range l {
+					col.Count("burst-op:" + op)
+					if op == "sched" {
+						scheds++
+					}
+				}
+			}
+			term := Record("c_id", N(id), "c_body", App("Burst", burstTerm(b), List(terms)))
+			col.Add(Case{Term: term, Key: "burst:" + burstTerm(b), Nontrivial: len(b.Lanes) >= 2 && scheds >= 1, Tags: w.Tags,
+				Sample: map[string]any{"input": in, "observed": observed, "process_died": res.Crashed}})
+			continue
+		}
 		if in.Script == nil {
 			outs, runs := res.TableOuts, res.TableRuns
 			if res.Crashed != "" {
